@@ -1,3 +1,6 @@
 local unused_b3 = 1
 print(undef_b3)
 require("nofile_b3")
+---@class
+local an_b3 = 1
+print(an_b3)
